@@ -50,11 +50,16 @@ import random
 
 PID = "C11"
 LEVEL = "proof"
-LEAN_MODULES = ["AsynqModel.Theorems.C11", "AsynqModel.Theorems.C11s"]
+LEAN_MODULES = ["AsynqModel.Theorems.C11", "AsynqModel.Theorems.C11s", "AsynqModel.Theorems.C11b"]
 HEADLINE = [
     # the observer accepts every history of the model; the invariant; the inductive step for EVERY snapshot inside the
     # invariant (hypothesis `Good s`, decidable - weaker than reachability)
     "AsynqModel.Batching.C11_spec_holds",
+    # Theorems/C11b.lean: an accepted history of any length and origin passed specStep at EVERY position (against the
+    # batch state shown by the record before it); prefix-closed; one rejected record rejects the history
+    "AsynqModel.Batching.C11_spec_every_step",
+    "AsynqModel.Batching.C11_spec_prefix",
+    "AsynqModel.Batching.C11_spec_rejects",
     "AsynqModel.Batching.C11_no_item_left_pending",
     "AsynqModel.Batching.C11_step_accepted",
     # per clause of the property text, all with the single hypothesis `Good s` (+ the batch / item is pending)
